@@ -107,7 +107,8 @@ class MinSetCover():
         self.solver.optimize()
         if self.solver.get_model_status() == "kOptimal":
             subset_cover_sol = self.solver.get_values(self.subset_vars)
-            self._solution = [i for i in range(len(self.subsets)) if subset_cover_sol[i] == 1]
+            # The solver reports a chosen binary as 0.9999999999999998 or 1.0000000000000002 as well
+            self._solution = [i for i in range(len(self.subsets)) if subset_cover_sol[i] > 0.5]
             self._is_solved = True
             self.solve_statistics = {
                 "solve_time": time.perf_counter() - start_time,
